@@ -286,7 +286,22 @@ def run_check(pid, tier, seed):
             undecided.append("unit %s: %s" % (unit, e)); continue
         except ToolError as e:
             undecided.append("unit %s: %s" % (unit, e)); continue
-        unit_info[unit] = {"verus_verified": R.verified, "verus_errors": R.errors, "wall_s": round(R.wall, 2),
+        stability = None
+        if tier == "thorough" and not R.tool_errors:
+            # second run with another SMT random seed and half the resource limit: a query that only
+            # just succeeds is the kind that later fails for no semantic reason - report, never alarm
+            try:
+                R2 = verify_unit_once(unit, repo_copy, sdir, extra=["--rlimit", "5", "--smt-option", "smt.random_seed=%d" % (seed % 1000 + 1)],
+                                      demote=set(R.demoted))
+                f1 = sorted(set(f["obligation"] for f in R.failures if f.get("fn")))
+                f2 = sorted(set(f["obligation"] for f in R2.failures if f.get("fn")))
+                stability = {"second_run": "rlimit 5, smt.random_seed=%d" % (seed % 1000 + 1), "verified": R2.verified,
+                             "same_verdicts": f1 == f2 and not R2.tool_errors, "tool_errors": R2.tool_errors[:3]}
+                if not stability["same_verdicts"]:
+                    undecided.append("unit %s: verdicts are not stable under a different SMT seed / lower rlimit: %s" % (unit, (R2.tool_errors or f2)[:3]))
+            except Exception as e:
+                stability = {"error": str(e)[:200]}
+        unit_info[unit] = {"verus_verified": R.verified, "verus_errors": R.errors, "wall_s": round(R.wall, 2), "stability": stability,
                            "rewrites": R.rewrites, "cut_points": R.cuts, "checker_cmd": R.cmd}
         undecided += ["unit %s: %s" % (unit, t) for t in R.tool_errors]
         assumptions += [a for a in R.assumptions if a not in assumptions]
@@ -366,6 +381,18 @@ def run_check(pid, tier, seed):
     harnesses = uniq
     have = set(h["harness"] for h in harnesses)
     twin_of = {}
+    if tier == "thorough":
+        # thorough: every twin of a function of this property is run even though Verus proved the
+        # function - this is what shows, on the unchanged tree, that twin and contract agree
+        for unit in P.get("units", []):
+            for key, tl in twins.items():
+                if not key.startswith(unit + "/"):
+                    continue
+                qn = key[len(unit) + 1:]
+                if any(e.get("function") == qn for e in fns):
+                    for h in tl:
+                        if h["harness"] not in have:
+                            harnesses.append(dict(h, twin=True)); have.add(h["harness"])
     for (unit, rec) in needs_twin + want_cex:
         tl = twins.get("%s/%s" % (unit, rec.qname), [])
         if not tl and (unit, rec) in needs_twin:
